@@ -179,4 +179,8 @@ def units(tier):
         add("B n=2 aa rounds=2 cancel=0", n=2, modes="aa", cancel=0, rounds=2, T=1)
         add("B n=2 aa eager cancel=1 native", n=2, modes="aa", cancel=1, native=True, eager=True)
         add("B n=2 aa eager cancel=0", n=2, modes="aa", cancel=0, eager=True)
+    if not quick:
+        add("B n=4 aaaa cancel=1", n=4, modes="aaaa", cancel=1, T=1, J=1)
+        add("B n=4 aaaa cancel=2 native", n=4, modes="aaaa", cancel=2, native=True, T=1, J=1)
+        add("B n=4 anca cancel=2", n=4, modes="anca", cancel=2, T=1, J=1)
     return us
